@@ -1,18 +1,23 @@
 (* C15_Model.v — string helpers of /repo/string.go (with math.go: Abs, InRange),
-   transcribed statement by statement AFTER the three repairs of
+   transcribed statement by statement AFTER the repairs of
    fixes/builder-c15/ (ToUpper maps with unicode.ToUpper; SplitAtIndex slices at
    the byte index; Unwrap only strips a token that both starts and ends the
-   string, with room for both).
+   string, with room for both) and of fixes/deepen-c15/ (/repo 6d6c881: Substr
+   clips the selection at the end of the string before adding offset and
+   length).
 
-   Strings are [list Z] of bytes; Go [int] is unbounded [Z].  A slice expression
+   Strings are [list Z] of bytes.  Go [int] is [Z]; the one function that does
+   arithmetic on two caller-supplied ints, Substr, has the 64-bit wrap-around
+   of every + and - written in ([substr_go]); everywhere else the code only
+   compares ints or subtracts a length from a larger int, which cannot wrap.  A slice expression
    [s[lo:hi]] is [slice], which answers [Panic] exactly when Go panics, so that
    "never panics" is a theorem and not a convention.  Runes go through Utf8.v.
 
    What is NOT verified but modelled (agreement with Go is checked by the
    correspondence on every run):
      - unicode.ToLower/ToUpper: Section variables [to_lower]/[to_upper]; for
-       execution the hand table [tbl_lower]/[tbl_upper] (exact on U+0000..U+00FF
-       and on every rune without case mapping);
+       execution the hand table [tbl_lower]/[tbl_upper] (exact on U+0000..U+00FF,
+       on the cased runes of [tbl_extra] and on every rune without case mapping);
      - strings.TrimSpace, Split(_, " "), Repeat, Index, LastIndex: the small
        functions below;
      - regexp "[-_&]+" with ReplaceAllString(_, " ") and regexp "[a-zö][A-ZÖ]+"
@@ -44,6 +49,11 @@ Definition in_range (num lo up : Z) : bool := (lo <=? num) && (num <=? up).
 
 (* ---------- Substr (string.go:27-55) ---------- *)
 
+(* [substr]: the statements of Substr in unbounded integer arithmetic.  This is
+   what the code computes whenever no intermediate value leaves the range of a
+   64-bit int — in particular for the calls splitStringWithDelimiter makes
+   (C15_Proofs.substr_go_internal).  The exported function on arbitrary Go ints
+   is [substr_go] below, with the wrap-around of [+], [-] and unary [-] written in. *)
 Definition substr (str : list Z) (offset length : Z) : res (list Z) :=
   let n := blen str in
   (* if offset < 0 { offset = len(str) + offset; if Abs(offset) > len(str) { return "" } } *)
@@ -52,18 +62,70 @@ Definition substr (str : list Z) (offset length : Z) : res (list Z) :=
   else
     (* if length < 0 { newLength := len(str)+length;
                        if Abs(newLength) > len(str) || newLength < offset { return "" }; end = newLength }
+       else if length > len(str)-offset { end = len(str) }        (repaired, 6d6c881)
        else { end = offset + length } *)
     let e :=
       if length <? 0 then
         let newLength := n + length in
         if (n <? abs_go newLength) || (newLength <? offset') then None else Some newLength
+      else if n - offset' <? length then Some n
       else Some (offset' + length) in
     match e with
     | None => Ok []
     | Some e0 =>
-        (* if end > len(str) { end = len(str) } *)
-        let e1 := if n <? e0 then n else e0 in
         (* if !InRange(offset, 0, len(str)) || !InRange(end, 0, len(str)) { return "" } *)
+        if negb (in_range offset' 0 n) || negb (in_range e0 0 n) then Ok []
+        else slice str offset' e0
+    end.
+
+(* Go's int is 64 bits: [+], [-] and unary [-] wrap around *)
+Definition maxint : Z := 9223372036854775807.      (* math.MaxInt *)
+Definition minint : Z := -9223372036854775808.     (* math.MinInt *)
+Definition int64 (x : Z) : Prop := minint <= x <= maxint.
+Definition wrap64 (x : Z) : Z := (x + 9223372036854775808) mod 18446744073709551616 - 9223372036854775808.
+(* Abs: if x < 0 { return -x }  — Abs(MinInt) = MinInt *)
+Definition abs_go64 (x : Z) : Z := if x <? 0 then wrap64 (- x) else x.
+
+(* Substr on Go ints: the same statements, every [+] and [-] through [wrap64].
+   [len(str)-offset] can leave the range only for an offset that is negative
+   after normalisation (then the range check at the end answers ""); in the last
+   branch length <= len(str)-offset, so [offset+length] cannot. *)
+Definition substr_go (str : list Z) (offset length : Z) : res (list Z) :=
+  let n := blen str in
+  let offset' := if offset <? 0 then wrap64 (n + offset) else offset in
+  if (offset <? 0) && (n <? abs_go64 offset') then Ok []
+  else
+    let e :=
+      if length <? 0 then
+        let newLength := wrap64 (n + length) in
+        if (n <? abs_go64 newLength) || (newLength <? offset') then None else Some newLength
+      else if wrap64 (n - offset') <? length then Some n
+      else Some (wrap64 (offset' + length)) in
+    match e with
+    | None => Ok []
+    | Some e0 =>
+        if negb (in_range offset' 0 n) || negb (in_range e0 0 n) then Ok []
+        else slice str offset' e0
+    end.
+
+(* Substr as it was SHIPPED before 6d6c881 ([end = offset + length], then
+   [if end > len(str) { end = len(str) }]): kept only for the witnesses
+   C15_substr_unrepaired_* — the sum wrapped for lengths near math.MaxInt, [end]
+   was negative and the range check answered "" *)
+Definition substr_go_unrepaired (str : list Z) (offset length : Z) : res (list Z) :=
+  let n := blen str in
+  let offset' := if offset <? 0 then wrap64 (n + offset) else offset in
+  if (offset <? 0) && (n <? abs_go64 offset') then Ok []
+  else
+    let e :=
+      if length <? 0 then
+        let newLength := wrap64 (n + length) in
+        if (n <? abs_go64 newLength) || (newLength <? offset') then None else Some newLength
+      else Some (wrap64 (offset' + length)) in
+    match e with
+    | None => Ok []
+    | Some e0 =>
+        let e1 := if n <? e0 then n else e0 in
         if negb (in_range offset' 0 n) || negb (in_range e1 0 n) then Ok []
         else slice str offset' e1
     end.
@@ -167,7 +229,8 @@ Fixpoint trim_aux (w : list Z -> nat) (skip : nat) (s : list Z) : list Z :=
       end
   end.
 Definition trim_left (s : list Z) : list Z := trim_aux space_head 0 s.
-Definition trim_right (s : list Z) : list Z := rev (trim_aux space_last 0 (rev s)).
+(* [rev'] is the linear-time reversal of the standard library ([rev' l = rev l], List.rev_alt) *)
+Definition trim_right (s : list Z) : list Z := rev' (trim_aux space_last 0 (rev' s)).
 Definition trim_space (s : list Z) : list Z := trim_right (trim_left s).
 
 (* strings.Split(s, " "): cut at every single space; n spaces give n+1 pieces *)
@@ -412,14 +475,37 @@ Definition reverse_str (s : list Z) : list Z :=
 
 (* ---------- the executable instance of the case oracle ---------- *)
 
-(* unicode.ToLower / unicode.ToUpper restricted to where a two-line rule is
-   exact: U+0000..U+00FF (ASCII, Latin-1 with the exceptions × ÷ ß µ ÿ) and all
-   runes that have no case mapping.  The harness alphabet stays inside this
-   domain and compares the table with package unicode rune by rune. *)
+(* unicode.ToLower / unicode.ToUpper restricted to where a short rule is exact:
+   U+0000..U+00FF by two lines (ASCII, Latin-1 with the exceptions × ÷ ß µ ÿ),
+   the listed cased runes above U+00FF (2-, 3- and 4-byte letters, among them
+   mappings that change the encoded width: ſ->S, K(Kelvin)->k, İ->i, ı->I,
+   Ⱥ<->ⱥ, ẞ->ß; the list is closed under both mappings), and every rune
+   without case mapping.  The harness generators stay inside this domain and
+   compare the table with package unicode rune by rune (wire functions 20/21). *)
+Definition tbl_extra : list (Z * (Z * Z)) :=     (* rune, (unicode.ToLower, unicode.ToUpper) *)
+  [ (963, (963, 931)); (931, (963, 931)); (962, (962, 931));          (* σ Σ ς *)
+    (383, (383, 83)); (8490, (107, 8490));                            (* ſ  K (Kelvin sign) *)
+    (304, (105, 304)); (305, (305, 73));                              (* İ ı *)
+    (570, (11365, 570)); (11365, (11365, 570));                       (* Ⱥ ⱥ : 2 <-> 3 bytes *)
+    (65313, (65345, 65313)); (65345, (65345, 65313));                 (* fullwidth A a : 3 bytes *)
+    (66560, (66600, 66560)); (66600, (66600, 66560));                 (* Deseret : 4 bytes *)
+    (924, (956, 924)); (956, (956, 924));                             (* Μ μ (Μ = ToUpper µ) *)
+    (376, (255, 376)); (7838, (223, 7838));                           (* Ÿ (= ToUpper ÿ), ẞ *)
+    (1046, (1078, 1046)); (1078, (1078, 1046));                       (* Ж ж *)
+    (7680, (7681, 7680)); (7681, (7681, 7680)) ].                     (* Ḁ ḁ *)
+Fixpoint assoc_z (r : Z) (l : list (Z * (Z * Z))) : option (Z * Z) :=
+  match l with
+  | [] => None
+  | (k, v) :: l' => if r =? k then Some v else assoc_z r l'
+  end.
 Definition tbl_lower (r : Z) : Z :=
-  if ((65 <=? r) && (r <=? 90)) || ((192 <=? r) && (r <=? 222) && negb (r =? 215)) then r + 32 else r.
+  if r <? 256 then
+    (if ((65 <=? r) && (r <=? 90)) || ((192 <=? r) && (r <=? 222) && negb (r =? 215)) then r + 32 else r)
+  else match assoc_z r tbl_extra with Some (l, _) => l | None => r end.
 Definition tbl_upper (r : Z) : Z :=
-  if ((97 <=? r) && (r <=? 122)) || ((224 <=? r) && (r <=? 254) && negb (r =? 247)) then r - 32
-  else if r =? 181 then 924
-  else if r =? 255 then 376
-  else r.
+  if r <? 256 then
+    (if ((97 <=? r) && (r <=? 122)) || ((224 <=? r) && (r <=? 254) && negb (r =? 247)) then r - 32
+     else if r =? 181 then 924
+     else if r =? 255 then 376
+     else r)
+  else match assoc_z r tbl_extra with Some (_, u) => u | None => r end.
